@@ -78,6 +78,12 @@ CLAIMS = {
                      "executed in the real runtime (baton-stepped threads, queue-stepped tasks, real nested with-blocks and exceptions), "
                      "every running execution observing the switch after every step, for PHYST_FREE_ARITHMETICS unset/0/1",
                 technique="TLA+ interleaving model PhystConfig + TLC; behaviours of the state graph executed deterministically on real threads/tasks"),
+    "C07": dict(spec="PhystBinnings", design="5/C07",
+                text="TLC checks RepresentationsAgree on every bin array (<= 3 bins over 5 edges, consecutive and gapped) and the rule laws "
+                     "(numpy edges as exact rationals, pretty width by cross-multiplied log-distance, quantile interpolation, integer-log "
+                     "exponential edges, least-k bin counts); every Make/Copy/Slice/==/as_static/as_fixed_width transition and every rule "
+                     "instance is replayed against physt.binnings under 5-8 embeddings; numpy rule cross-checked with numpy.histogram_bin_edges",
+                technique="TLA+ spec PhystBinnings (exact rational rule definitions) + TLC; one implementation test per transition of the state graph"),
 }
 
 PENDING = {}
